@@ -25,3 +25,4 @@ import Proofs.Facts.C04
 #print axioms C04.Facts.apply_expr_agrees
 #print axioms C04.Facts.mayNeedTidy_agrees
 #print axioms C04.Facts.scan_agrees
+#print axioms C04.zero_edit_is_identity
